@@ -11,12 +11,23 @@ Theorem C16_result_runnable : forall host dl j, search host dl = Some j ->
 Proof. exact result_runnable. Qed.
 Print Assumptions C16_result_runnable.
 
-(* an entry is found whenever a runnable entry exists (the host names an architecture; the
-   no-architecture corner is F-C16a in DESIGN.md) *)
-Theorem C16_found_if_any : forall host dl x, arch (normalize host) <> "" ->
+(* an entry is found whenever a runnable entry exists — for every host, every list *)
+Theorem C16_found_if_any : forall host dl x,
   In (Some x) dl -> compatible host x = true -> search host dl <> None.
 Proof. exact found_if_any. Qed.
 Print Assumptions C16_found_if_any.
+
+(* the scan as it was before the repair recorded in known-findings.txt (every entry, the first
+   included, had to beat the zero platform): the claim held only for hosts that name an architecture,
+   and failed for a host that gives a variant only *)
+Theorem C16_old_scan_found_partial : forall host dl x, arch (normalize host) <> "" ->
+  In (Some x) dl -> compatible host x = true -> search_old host dl <> None.
+Proof. exact found_if_any_old. Qed.
+Print Assumptions C16_old_scan_found_partial.
+Theorem C16_old_scan_refuted : exists host dl x,
+  In (Some x) dl /\ compatible host x = true /\ search_old host dl = None /\ search host dl = Some 0.
+Proof. exact found_if_any_old_refuted. Qed.
+Print Assumptions C16_old_scan_refuted.
 
 (* none that the ordering ranks strictly better is passed over — any list length, any strings *)
 Theorem C16_none_better_passed_over : forall host dl j r,
@@ -35,7 +46,7 @@ Proof. exact order_independent. Qed.
 Print Assumptions C16_order_independent.
 
 Theorem C16_found_order_independent : forall host dl dl',
-  arch (normalize host) <> "" -> (forall e, In e dl <-> In e dl') ->
+  (forall e, In e dl <-> In e dl') ->
   search host dl <> None -> search host dl' <> None.
 Proof. exact found_order_independent. Qed.
 Print Assumptions C16_found_order_independent.
